@@ -56,6 +56,9 @@ def gen_list(rng, depth, allow_nested=True):
     return out
 
 
+NEG = True      # module switch: when False no negation and no none-of is generated anywhere
+
+
 def gen_key(rng, field, value_is_list, allow_mod=True):
     if not allow_mod:
         return field
@@ -63,8 +66,8 @@ def gen_key(rng, field, value_is_list, allow_mod=True):
     if value_is_list and r < 0.35:
         if rng.random() < 0.5:
             return "all(%s)" % field
-        return "of(%s, %d)" % (field, pick(rng, [0, 1, 1, 2, 2, 3]))
-    if r < 0.45:
+        return "of(%s, %d)" % (field, pick(rng, [0, 1, 1, 2, 2, 3] if NEG else [1, 1, 2, 2, 3]))
+    if r < 0.45 and NEG:
         return "not(%s)" % field
     if r < 0.52:
         return "int(%s)" % field
@@ -125,7 +128,7 @@ def gen_condition(rng, names, fields, depth=3, neg=True, quant=True, casts=True)
         if quant and r < 0.15:
             return "all(%s)" % pick(rng, names)
         if quant and r < 0.3:
-            return "of(%s, %d)" % (pick(rng, names), pick(rng, [0, 1, 1, 2, 2, 3]))
+            return "of(%s, %d)" % (pick(rng, names), pick(rng, [0, 1, 1, 2, 2, 3] if NEG else [1, 1, 2, 2, 3]))
         if casts and r < 0.38:
             f = pick(rng, fields)
             c = rng.random()
@@ -221,25 +224,78 @@ def needle_text(p):
     return q
 
 
+REGEX_EXAMPLES = {"^fo": "foo", "o+": "foo", ".*oo": "xoo", "fo.*": "xfoo", ".*o.*": "o", "^ab$": "ab", "b": "abc",
+                  "(a|b)c": "xbc", "^FO": "fox"}
+
+
+def match_for(rng, p):
+    """a value that the pattern p accepts (best effort)"""
+    if isinstance(p, bool) or p is None:
+        return p
+    if isinstance(p, (int, float)):
+        return p
+    ci = False
+    q = p
+    if q.startswith("i") and len(q) > 0:
+        ci = True
+        q = q[1:]
+    if q.startswith("?"):
+        v = REGEX_EXAMPLES.get(q[1:], "foo")
+    elif q[:2] in (">=", "<="):
+        try:
+            v = float(q[2:]) if "." in q else int(q[2:])
+        except ValueError:
+            v = 5
+    elif q[:1] in (">", "<", "="):
+        try:
+            n = float(q[1:]) if "." in q else int(q[1:])
+        except ValueError:
+            n = 5
+        v = n + 1 if q[0] == ">" else (n - 1 if q[0] == "<" else n)
+    elif q == "*":
+        v = "zzz"
+    elif len(q) >= 2 and q.startswith("*") and q.endswith("*"):
+        v = "x" + q[1:-1] + "y"
+    elif q.startswith("*"):
+        v = "x" + q[1:]
+    elif q.endswith("*"):
+        v = q[:-1] + "y"
+    elif len(q) >= 2 and q[0] == q[-1] and q[0] in "'\"":
+        v = q[1:-1]
+    else:
+        v = q
+    if ci and isinstance(v, str) and rng.random() < 0.5:
+        v = v.upper()
+    return v
+
+
 def gen_leaf_value(rng, node):
     r = rng.random()
-    if r < 0.5:
+    pats = node["strs"] + node["nums"]
+    if pats and r < 0.42:
+        v = match_for(rng, pick(rng, pats))
+        if isinstance(v, float):
+            return Fl(fbits(v))
+        if rng.random() < 0.1:
+            return [v, "zzz"]
+        return v
+    if r < 0.6:
         cands = list(HAY)
         for p in node["strs"]:
             t = needle_text(p)
             if t is not None:
                 cands += [t, t.upper(), t.lower(), "x" + t, t + "y", "x" + t + "y", t[:-1]]
         return pick(rng, cands)
-    if r < 0.72:
+    if r < 0.76:
         c = [5, 0, 1, -3, 6, 4, 100, I(5), U(5), I(-1), U(9223372036854775807), U(9223372036854775808),
              U(18446744073709551615), I(-9223372036854775808), Fl(fbits(5.0)), Fl(fbits(5.5)), Fl(fbits(4.5)),
              Fl(fbits(float("nan"))), Fl(fbits(1e30)), Fl(fbits(-0.0))]
         return pick(rng, c)
-    if r < 0.78:
+    if r < 0.81:
         return rng.random() < 0.5
-    if r < 0.82:
+    if r < 0.84:
         return None
-    if r < 0.93:
+    if r < 0.94:
         n = pick(rng, [0, 1, 2, 3])
         return [gen_leaf_value(rng, node) if rng.random() < 0.8 else {"n": 1} for _ in range(n)]
     return {"x": 1}
@@ -249,7 +305,7 @@ def gen_doc(rng, tree, depth=0):
     d = {}
     for f, node in tree.items():
         r = rng.random()
-        if r < 0.22:
+        if r < 0.15:
             continue                       # absent
         if node["sub"] and r < 0.8:
             c = rng.random()
